@@ -14,7 +14,8 @@ from pathlib import Path
 
 ROOT = Path(__file__).resolve().parent
 # never let /repo/aiohomekit itself be sys.path[0] (it shadows enum/http/uuid)
-for p in (str(ROOT), "/repo"):
+REPO = os.environ.get("VERIF_REPO", "/repo")  # the repository under test (a snapshot for background runs)
+for p in (str(ROOT), REPO):
     if p not in sys.path:
         sys.path.insert(0, p)
 os.environ.setdefault("AIOHOMEKIT_VERIF", "1")
